@@ -71,6 +71,13 @@ func (fr *Frame) callFn(st *State, site ssa.Instruction, fn *ssa.Function, args 
 	}
 	var res Value
 	// methods of abstract (ring-element) types are interpreted by their ring meaning
+	if r, ok := fr.bigCall(st, fn, args); ok {
+		if fr.top {
+			fr.bindCallResult(st, r)
+			fr.anchor(st, "call", fn.Name(), -1)
+		}
+		return r
+	}
 	if r, ok := fr.ringCall(st, fn, args); ok {
 		if fr.top {
 			fr.bindCallResult(st, r)
@@ -78,7 +85,7 @@ func (fr *Frame) callFn(st *State, site ssa.Instruction, fn *ssa.Function, args 
 		}
 		return r
 	}
-	if c := v.lookupContract(fn); c != nil && c.Options["inline"] == "" && !(fr.top && fr.fn == fn) {
+	if c := v.lookupContract(fn); c != nil && c.Options["inline"] == "" && !(fr.top && fr.fn == fn) && !v.opaqueNames[fn.Name()] {
 		if v.layerKeyOf(fn.Pkg, c) == v.curLayerKey && len(c.Lets) == 0 {
 			res = fr.applyContract(st, site, c, fn, args)
 			if fr.top {
@@ -386,7 +393,7 @@ func (v *Verifier) freshLike(name string, cur Value) Value {
 // opaqueOK: with "option opaque-calls" every callee without a contract at the current layer is an opaque
 // call: its results are arbitrary values of the result types. The callee is ASSUMED not to write through its
 // arguments (recorded); functions whose writes matter need a contract with a modifies clause.
-func (v *Verifier) opaqueOK(fn *ssa.Function) bool { return v.opaqueCalls }
+func (v *Verifier) opaqueOK(fn *ssa.Function) bool { return v.opaqueCalls || v.opaqueNames[fn.Name()] }
 
 func (fr *Frame) opaqueCall(st *State, site ssa.Instruction, fn *ssa.Function, args []Value) Value {
 	v := fr.v
